@@ -287,7 +287,7 @@ class Proxy:
 class World:
     """a set of real TunnelCommunity nodes whose tunnel cells are held by the harness"""
 
-    def __init__(self, ctx: Ctx, rng, n_relays: int, n_exits: int, desc: str):
+    def __init__(self, ctx: Ctx, rng, n_relays: int, n_exits: int, desc: str, rtd=0, nht=None):
         (self.OpenSSLSK, self.comm, self.pl, self.tn, self.mep, self.MockIPv8, self.rt, self.ser) = _imports()
         self.ctx, self.rng, self.desc = ctx, rng, desc
         self.nodes = []
@@ -305,16 +305,26 @@ class World:
         self.attacker_keys = []
         self.forged_keys = set()
         self.accepts = 0
+        self.history = []        # every cell delivered so far (dst, src, bytes) — material for replays
+        self.established = {}    # (cid, k) -> responder end of a hop accepted with genuine material
+        self.nongenuine = set()  # circuits with a hop accepted on non-genuine material (no agreement expected)
+        self.slice = 5.0 if nht is None else min(5.0, 0.9 * nht)
         self.sym = Sym(self.rt, self.OpenSSLSK)
-        flags = [{self.tn.PEER_FLAG_RELAY, self.tn.PEER_FLAG_SPEED_TEST}]
-        flags += [{self.tn.PEER_FLAG_RELAY}] * n_relays
-        flags += [{self.tn.PEER_FLAG_RELAY, self.tn.PEER_FLAG_EXIT_BT}] * n_exits
+        st = self.tn.PEER_FLAG_SPEED_TEST
+        flags = [{self.tn.PEER_FLAG_RELAY, st}]
+        flags += [{self.tn.PEER_FLAG_RELAY, st}] * n_relays
+        flags += [{self.tn.PEER_FLAG_RELAY, self.tn.PEER_FLAG_EXIT_BT, st}] * n_exits
         self.flags = flags
         for i, fl in enumerate(flags):
             s = self.comm.TunnelSettings()
             s.min_circuits = 0
             s.max_circuits = 0
-            s.remove_tunnel_delay = 0
+            if rtd is not None:
+                s.remove_tunnel_delay = rtd         # None: the shipped default (5 s)
+            if nht is not None and i == 0:
+                s.next_hop_timeout = nht            # same number of tries as the default 60 // 10
+                s.circuit_timeout = nht * (self.comm.TunnelSettings.circuit_timeout
+                                           // self.comm.TunnelSettings.next_hop_timeout)
             s.peer_flags = set(fl)
             n = self.MockIPv8("curve25519", self.comm.TunnelCommunity, settings=s)
             n.overlay.cancel_all_pending_tasks()
@@ -634,14 +644,94 @@ class World:
                     ctx.oracle_fail(f"{site}:honest-ends-disagree",
                                     "after a genuine answer the originator and the selected peer hold different "
                                     "session keys", self.replay_of("honest ends disagree"))
+                else:
+                    self.established[(cid, len(new))] = {"idx": info["idx"], "rcid": info["cid"], "kind": att["kind"]}
                 ctx.count("accept:genuine")
             else:
+                self.nongenuine.add(cid)
                 ctx.count("accept:non-genuine-material")
         # circuits that appeared with hops already set
         for cid, c in ov.circuits.items():
             if cid not in before and len(c.hops) > 0:
                 ctx.oracle_fail("Circuit.hops:new-circuit-with-hops", "a new circuit appeared with verified hops",
                                 self.replay_of("new circuit with hops"))
+        self.link_oracle()
+
+    @staticmethod
+    def _fp(keys):
+        return None if keys is None else (keys.key_forward, keys.key_backward, keys.salt_forward, keys.salt_backward)
+
+    def well_formed(self, cid, c) -> int:
+        """number of leading hops of circuit c that were established by genuine exchanges in the regular way
+        (hop 1 by a create, hop k > 1 by an extend through hop k-1)"""
+        if cid in self.nongenuine:
+            return 0
+        n = 0
+        for k in range(1, len(c.hops) + 1):
+            e = self.established.get((cid, k))
+            if e is None or e["kind"] != ("create" if k == 1 else "extend"):
+                break
+            n = k
+        return n
+
+    def link_oracle(self):
+        """after EVERY step, for every hop established by a genuine exchange: the responder end still holds the same
+        keys as the originator, and the relay in front of it still routes the hop to the selected node"""
+        ctx = self.ctx
+        ov = self.nodes[0].overlay
+        for cid, c in ov.circuits.items():
+            if c.state == self.tn.CIRCUIT_STATE_CLOSING:
+                continue
+            for k in range(1, self.well_formed(cid, c) + 1):
+                e = self.established[(cid, k)]
+                node = self.nodes[e["idx"]].overlay
+                es, rr = node.exit_sockets.get(e["rcid"]), node.relay_from_to.get(e["rcid"])
+                held = [x.hop.keys for x in (es, rr) if x is not None]
+                want = self._fp(c.hops[k - 1].keys)
+                if not held or any(self._fp(x) != want for x in held):
+                    ctx.oracle_fail("TunnelCommunity.join_circuit:established-hop-rekeyed-at-responder",
+                                    f"hop {k} of circuit {cid}: the selected peer no longer holds the session keys the "
+                                    "originator holds for this established hop (entry replaced or removed)",
+                                    self.replay_of("established hop re-keyed at the responder"))
+                    continue
+                if k < len(c.hops) and (cid, k + 1) in self.established and k + 1 <= self.well_formed(cid, c):
+                    nxt = self.established[(cid, k + 1)]
+                    ok = rr is not None and rr.direction == FORWARD and rr.circuit_id == nxt["rcid"] \
+                        and self.addr_idx.get(rr.hop.peer.address) == nxt["idx"]
+                    back = self.nodes[e["idx"]].overlay.relay_from_to.get(nxt["rcid"])
+                    ok = ok and back is not None and back.direction == BACKWARD and back.circuit_id == e["rcid"]
+                    if not ok:
+                        ctx.oracle_fail("TunnelCommunity.on_created:relay-reroutes-established-hop",
+                                        f"hop {k + 1} of circuit {cid}: the relay in front of it no longer forwards "
+                                        "the circuit to the peer the originator selected",
+                                        self.replay_of("relay re-routed an established hop"))
+
+    async def finish(self):
+        """end of a scenario: every READY circuit whose hops were all established by genuine exchanges must carry a
+        request to its last hop and the answer back (keys agree at every layer AND every relay routes to the
+        selected node)"""
+        ctx = self.ctx
+        ov = self.nodes[0].overlay
+        await self.flush()
+        for cid, c in list(ov.circuits.items()):
+            if c.state != self.tn.CIRCUIT_STATE_READY or self.well_formed(cid, c) != len(c.hops) or not c.hops:
+                continue
+            fut = ov.send_test_request(c, 8, 8)
+            await self.settle()
+            await self.flush()
+            ctx.count("e2e:probe")
+            if not fut.done():
+                fut.cancel()
+                ctx.oracle_fail("TunnelCommunity.send_cell:established-circuit-carries-no-traffic",
+                                f"circuit {cid} is READY, every hop was accepted on a genuine answer of the selected "
+                                "peer, yet a request sent into it is not answered by its last hop",
+                                self.replay_of("established circuit carries no traffic"))
+
+    async def flush(self, max_steps=60):
+        n = 0
+        while self.pending and n < max_steps:
+            n += 1
+            await self.deliver(self.pending.pop(0))
 
     # ---- steps ---------------------------------------------------------------------------------------------
     def _record(self, line, expected):
@@ -696,6 +786,8 @@ class World:
         self.step_no += 1
         self.calls, self.sent = [], []
         before = self.snapshot()
+        self.history.append(Held(src or h.src, h.dst, h.data if data is None else data, h.seq, h.kind, h.cid,
+                                 h.from_idx))
         try:
             self.nodes[h.dst].endpoint.notify_listeners((src or h.src, h.data if data is None else data))
         except Exception as e:  # noqa: BLE001
@@ -733,7 +825,7 @@ class World:
         cannot expire in the same slice, so each slice sees every expiry exactly once)"""
         fired = 0
         while dt > 1e-9:
-            d = min(dt, 5.0)
+            d = min(dt, self.slice)
             fired += await self._advance(d)
             dt -= d
         return fired
@@ -890,7 +982,7 @@ def manipulate(w: World, rng, manip: str, created, X: bytes):
 
 # ------------------------------------------------------------------------------------------------------------------
 async def build_world(ctx, rng, desc, n_relays=3, n_exits=2):
-    w = World(ctx, rng, n_relays, n_exits, desc)
+    w = World(ctx, rng, n_relays, n_exits, desc, rtd=desc.get("rtd", 0), nht=desc.get("nht"))
     await w.introduce()
     return w
 
@@ -963,6 +1055,7 @@ async def sc_honest(ctx, rng, desc, hops, shuffle=False, dup=False, two=False):
             if dup and rng.random() < 0.5:
                 await w.deliver(h)
         final_honest_checks(w, circuits, expect_ready=True)
+        await w.finish()
         return w
     finally:
         await w.close()
@@ -1005,6 +1098,7 @@ async def sc_tamper(ctx, rng, desc, hops, pos, manip, follow):
         if follow == "none" and rng.random() < 0.5:
             await w.advance(10.2)
             await run_fifo(w, 80)
+        await w.finish()
         return w
     finally:
         await w.close()
@@ -1046,6 +1140,7 @@ async def sc_late(ctx, rng, desc, hops, pos, variant):
             if variant == "twice":
                 await w.deliver(h, data=data)
         await run_fifo(w, 80)
+        await w.finish()
         return w
     finally:
         await w.close()
@@ -1083,6 +1178,7 @@ async def sc_api_retry(ctx, rng, desc, hops, variant):
                 await run_fifo(w, 80)
                 await w.deliver(h, data=w.build_created(cid, cache.packet_identifier, key, auth, cands))
         await run_fifo(w, 80)
+        await w.finish()
         return w
     finally:
         await w.close()
@@ -1120,6 +1216,7 @@ async def sc_cross(ctx, rng, desc, hops, variant):
                 await w.deliver(a)
                 await w.deliver(b)
         await run_fifo(w, 120)
+        await w.finish()
         return w
     finally:
         await w.close()
@@ -1193,6 +1290,7 @@ async def sc_relay(ctx, rng, desc, hops, pos, variant):
         if rng.random() < 0.4:
             await w.advance(10.2)
             await run_fifo(w, 80)
+        await w.finish()
         return w
     finally:
         await w.close()
@@ -1225,6 +1323,88 @@ async def sc_cipher_noise(ctx, rng, desc, hops):
         if rng.random() < 0.5:
             await w.advance(10.2)
             await run_fifo(w, 100)
+        await w.finish()
+        return w
+    finally:
+        await w.close()
+
+
+async def sc_replay_expired(ctx, rng, desc, hops, variant):
+    """undisturbed build, then the recorded handshake cells are REPLAYED to the responders / relays / originator: right
+    away (caches alive), after the created caches expired (unstable_timeout, 60 s), or both; the established hops must
+    stay keyed as they are at both ends and the circuit must keep carrying traffic"""
+    w = await build_world(ctx, rng, desc)
+    try:
+        circuits = [await start_circuit(w, hops)]
+        if variant == "two-circuits":
+            circuits.append(await start_circuit(w, rng.choice([1, 2, 3])))
+        await run_fifo(w, 120)
+        recorded = list(w.history)
+
+        async def replay_all(which):
+            cells = [h for h in recorded if which == "all" or h.kind == 2 or (which == "to-joined" and h.dst != 0)]
+            if variant == "shuffled":
+                rng.shuffle(cells)
+            for h in cells:
+                ctx.count("replay:" + ("create" if h.kind == 2 else "created" if h.kind == 3 else "encrypted"))
+                await w.deliver(h)
+            await w.flush()
+        if variant in ("early-and-late", "two-circuits"):
+            await replay_all("all")
+        await w.advance(61.0)
+        await replay_all("creates" if variant == "creates-only" else "to-joined" if variant == "to-joined" else "all")
+        if rng.random() < 0.5:
+            await w.advance(10.2)
+            await replay_all("creates")
+        await w.finish()
+        return w
+    finally:
+        await w.close()
+
+
+async def sc_relay_late(ctx, rng, desc, hops, pos):
+    """answer after timeout/retry seen from the RELAY: the first candidate for hop `pos` (>= 2) answers slowly, the
+    originator times out and extends to another candidate through the same relay, then the late CREATED of the first
+    candidate reaches the relay (its create cache is still alive because the originator's next_hop_timeout is shorter
+    than the relay's 10 s cache)"""
+    w = await build_world(ctx, rng, desc)
+    try:
+        await start_circuit(w, hops)
+        held = []
+        n_created = [0]
+
+        async def on_msg(h: Held):
+            if h.kind == 3 and not held:
+                n_created[0] += 1
+                if n_created[0] == pos and h.dst != 0:
+                    held.append(h)
+                    return "handled"
+            return None
+        await run_fifo(w, 80, on_msg)
+        await w.advance(w.nodes[0].overlay.settings.next_hop_timeout + 0.2)
+        moment = desc.get("moment", "after-ready")
+        if moment == "before-retry-answer" and held:
+            # deliver the retry's EXTEND and CREATE, then the late answer overtakes the new candidate's CREATED
+            seen = [0]
+
+            async def until_created(h: Held):
+                if h.kind == 3 and h.dst != 0 and not seen[0]:
+                    seen[0] = 1
+                    await w.deliver(held[0])
+                    await w.deliver(h)
+                    return "handled"
+                return None
+            await run_fifo(w, 80, until_created)
+        else:
+            await run_fifo(w, 80)
+            if held:
+                if moment == "after-delay":
+                    await w.advance(5.5)
+                await w.deliver(held[0])
+        if held and desc.get("twice"):
+            await w.deliver(held[0])
+        await run_fifo(w, 80)
+        await w.finish()
         return w
     finally:
         await w.close()
@@ -1273,6 +1453,7 @@ async def sc_random(ctx, rng, desc):
                 await w.advance(rng.choice([3.0, 10.2, 10.2, 61.0]))
         await w.advance(10.2)
         await run_fifo(w, 60)
+        await w.finish()
         return w
     finally:
         await w.close()
@@ -1309,6 +1490,16 @@ def scenario_list(ctx: Ctx, tier: str):
                       "key-flip-bit255", "premature-dup", "redirect"):
                 out.append({"k": "relay", "hops": hops, "pos": pos, "variant": v})
         out.append({"k": "cipher-noise", "hops": hops})
+        for v in ("creates-only", "to-joined", "all", "shuffled", "early-and-late", "two-circuits"):
+            out.append({"k": "replay-expired", "hops": hops, "variant": v})
+        for pos in range(2, hops + 1):
+            for moment in ("after-ready", "before-retry-answer", "after-delay"):
+                for rtd in (0, None):
+                    out.append({"k": "relay-late", "hops": hops, "pos": pos, "moment": moment, "rtd": rtd, "nht": 3,
+                                "twice": moment == "after-ready" and rtd is None})
+    # remove_tunnel_delay: the test-suite value 0 and the shipped default (None) alternate over the enumeration
+    for i, d in enumerate(out):
+        d.setdefault("rtd", 0 if i % 2 == 0 else None)
     return out
 
 
@@ -1340,6 +1531,10 @@ async def run_scenario(ctx, d: dict, sub_seed: int):
         return await sc_relay(ctx, rng, desc, d["hops"], d["pos"], d["variant"])
     if k == "cipher-noise":
         return await sc_cipher_noise(ctx, rng, desc, d["hops"])
+    if k == "replay-expired":
+        return await sc_replay_expired(ctx, rng, desc, d["hops"], d["variant"])
+    if k == "relay-late":
+        return await sc_relay_late(ctx, rng, desc, d["hops"], d["pos"])
     if k == "random":
         return await sc_random(ctx, rng, desc)
     raise ValueError(k)
@@ -1398,7 +1593,7 @@ def run(ctx: Ctx):
     if ctx.replay_input is not None:
         return replay(ctx, ctx.replay_input)
     sc = [(d, ctx.rng.getrandbits(32)) for d in scenario_list(ctx, ctx.tier)]
-    sc += [({"k": "random"}, ctx.rng.getrandbits(32)) for _ in range(ctx.scale(60, 900))]
+    sc += [({"k": "random", "rtd": [0, None][i % 2]}, ctx.rng.getrandbits(32)) for i in range(ctx.scale(60, 900))]
     if ctx.thorough():
         for _rep in range(2):
             sc += [(d, ctx.rng.getrandbits(32)) for d in scenario_list(ctx, "thorough")]
@@ -1407,7 +1602,7 @@ def run(ctx: Ctx):
 
 def search(ctx: Ctx, reason: str):
     sc = [(d, ctx.rng.getrandbits(32)) for d in scenario_list(ctx, "thorough")]
-    sc += [({"k": "random"}, ctx.rng.getrandbits(32)) for _ in range(300)]
+    sc += [({"k": "random", "rtd": [0, None][i % 2]}, ctx.rng.getrandbits(32)) for i in range(300)]
     run_all(ctx, sc, False)
 
 
